@@ -241,7 +241,26 @@ func runC14History(r *mon.Run, stream uint64) {
 		var pre poolSnap
 		if lazy {
 			pre = snapPool(tw.CM)
-			r.Count("submissions_as_first_pool_operation_after_block", 1)
+			if rng.IntN(2) == 0 {
+				// the first pool operation after the block is a lookup by id of
+				// what the twin lists (and of what the block confirmed)
+				lcs := base
+				lcs.Step, lcs.Kind = step, "lookup-first-after-block"
+				if rng.IntN(2) == 0 && len(pre.v2) > 0 {
+					want := pre.v2[rng.IntN(len(pre.v2))]
+					if got, ok := cm.V2PoolTransaction(want.ID()); !ok || got.ID() != want.ID() {
+						r.Violation("lookup-wrong:V2PoolTransaction:first-after-block", "V2PoolTransaction, as the first pool operation after a block, did not return a transaction that is pooled", lcs, want.ID().String())
+						return
+					}
+				}
+				c14Lookups(r, cm, pre, everIDs[max(0, len(everIDs)-6):], lcs)
+				r.Count("lookups_as_first_pool_operation_after_block", 1)
+				if r.Violations() > 0 {
+					return
+				}
+			} else {
+				r.Count("submissions_as_first_pool_operation_after_block", 1)
+			}
 		} else {
 			pre = snapPool(cm)
 		}
@@ -576,6 +595,38 @@ func runC14History(r *mon.Run, stream uint64) {
 				}
 			}
 		}
+		// ... and the transactions handed out for a partial block: requests
+		// that are completely satisfied (every hash pooled, in PRNG subsets ending
+		// with a v1 or a v2 match) and requests with an unknown hash
+		if pl1, pl2 := cm.PoolTransactions(), cm.V2PoolTransactions(); len(pl1)+len(pl2) > 0 {
+			var hashes []types.Hash256
+			for _, x := range pl1 {
+				if rng.IntN(2) == 0 {
+					hashes = append(hashes, x.MerkleLeafHash())
+				}
+			}
+			for _, x := range pl2 {
+				if rng.IntN(3) != 0 {
+					hashes = append(hashes, x.MerkleLeafHash())
+				}
+			}
+			if rng.IntN(3) == 0 {
+				hashes = append(hashes, types.Hash256{0xde, 0xad, byte(step)})
+			}
+			if len(hashes) > 0 {
+				g1, g2 := cm.TransactionsForPartialBlock(hashes)
+				for i, j := 0, len(g1)-1; i < j; i, j = i+1, j-1 {
+					g1[i], g1[j] = g1[j], g1[i]
+				}
+				for i := range g2 {
+					scribbleV2(&g2[i])
+				}
+				r.Count("aliasing_probes_partial_block", 1)
+				if len(g2) > 0 {
+					r.Count("aliasing_probes_partial_block_with_v2", 1)
+				}
+			}
+		}
 		after := listing()
 		r.Count("aliasing_probes", 1)
 		if fmt.Sprint(before) != fmt.Sprint(after) {
@@ -703,6 +754,8 @@ func runC14(r *mon.Run, replay string) {
 	r.Floor("partly_known_sets_ending_with_known", 20)
 	r.Floor("valid_part_of_rejected_set_resubmitted", 20)
 	r.Floor("submissions_as_first_pool_operation_after_block", 20)
+	r.Floor("lookups_as_first_pool_operation_after_block", 20)
+	r.Floor("aliasing_probes_partial_block_with_v2", 50)
 	r.Floor("lookups:PoolTransaction:v2", 100)
 	r.Floor("lookups:V2PoolTransaction:v1", 100)
 	_ = rand.Int
